@@ -138,17 +138,12 @@ impl Program {
 
     /// Source text, the line of body statement i (1-based), and the line of the return value.
     pub fn render(&self) -> (String, Vec<usize>, usize) {
-        let mut lines: Vec<String> = ty::PRELUDE.lines().map(|s| s.to_string()).collect();
-        lines.push("struct GIn { x: i32, y: u8 }".to_string());
-        lines.push("struct GOut { id: i32, inner: GIn, items: [2]GIn, link: &GIn }".to_string());
-        for f in &self.funcs {
-            let ps: Vec<String> = f.params.iter().enumerate().map(|(i, t)| format!("p{}: {}", i, ty::syntax(t))).collect();
-            match &f.ret {
-                Some(r) => lines.push(format!("fn {}({}) -> {};", f.name, ps.join(", "), ty::syntax(r))),
-                None => lines.push(format!("fn {}({});", f.name, ps.join(", "))),
-            }
-        }
-        lines.push(format!("fn t({}) -> {}", FN_PARAMS, ty::syntax(&self.ret_ty)));
+        let (source, first, _) = self.render_module(None, false);
+        (source, first.0, first.1)
+    }
+
+    fn render_function(&self, name: &str, lines: &mut Vec<String>) -> (Vec<usize>, usize) {
+        lines.push(format!("fn {}({}) -> {}", name, FN_PARAMS, ty::syntax(&self.ret_ty)));
         lines.push("{".to_string());
         lines.extend(self.prologue.iter().cloned());
         let mut at = Vec::new();
@@ -159,7 +154,38 @@ impl Program {
         lines.push(format!("\treturn: {}", self.ret.text(self)));
         let ret_line = lines.len();
         lines.push("}".to_string());
-        (lines.join("\n") + "\n", at, ret_line)
+        (at, ret_line)
+    }
+
+    /// A module with the function `t` of this program and, optionally, a SECOND function `u` with the body of
+    /// `second` (same function heads), before or after `t`.  Returns the source and, per function, the lines of
+    /// its body statements and of its return value.
+    pub fn render_module(&self, second: Option<&Program>, second_first: bool) -> (String, (Vec<usize>, usize), (Vec<usize>, usize)) {
+        let mut lines: Vec<String> = ty::PRELUDE.lines().map(|s| s.to_string()).collect();
+        lines.push("struct GIn { x: i32, y: u8 }".to_string());
+        lines.push("struct GOut { id: i32, inner: GIn, items: [2]GIn, link: &GIn }".to_string());
+        for f in &self.funcs {
+            let ps: Vec<String> = f.params.iter().enumerate().map(|(i, t)| format!("p{}: {}", i, ty::syntax(t))).collect();
+            match &f.ret {
+                Some(r) => lines.push(format!("fn {}({}) -> {};", f.name, ps.join(", "), ty::syntax(r))),
+                None => lines.push(format!("fn {}({});", f.name, ps.join(", "))),
+            }
+        }
+        // a source of every primitive type that is not a variable: a function result, a named constant
+        for (i, p) in PRIMS.iter().enumerate() {
+            lines.push(format!("fn mk_{p}() -> {p};"));
+            lines.push(format!("const K_{p}: {p} = {};", ty::literal(p, i as u32 + 1)));
+        }
+        let mut first = (Vec::new(), 0);
+        let mut other = (Vec::new(), 0);
+        if let (Some(s), true) = (second, second_first) {
+            other = s.render_function("u", &mut lines);
+        }
+        first = { let _ = first; self.render_function("t", &mut lines) };
+        if let (Some(s), false) = (second, second_first) {
+            other = s.render_function("u", &mut lines);
+        }
+        (lines.join("\n") + "\n", first, other)
     }
 }
 
@@ -385,8 +411,8 @@ impl Gen {
     }
 
     pub fn program(&mut self, statements: usize, depth: usize) -> Program {
-        // function heads
-        let nf = self.rng.range(3, 6);
+        // function heads (kept if they were preset: the second function of a module shares them with the first)
+        let nf = if self.funcs.is_empty() { self.rng.range(3, 6) } else { 0 };
         for i in 0..nf {
             let np = self.rng.range(0, 3);
             let mut params = Vec::new();
@@ -450,7 +476,8 @@ pub struct Mutant {
 }
 
 fn cell(ctx: &str, op: &str, a: (Ty, usize), b: (Ty, usize)) -> Cell {
-    Cell { ctx: ctx.to_string(), op: op.to_string(), a: a.0, ka: a.1, b: b.0, kb: b.1, x: "direct".to_string(), y: "top".to_string() }
+    Cell { ctx: ctx.to_string(), op: op.to_string(), a: a.0, ka: a.1, b: b.0, kb: b.1, x: "direct".to_string(), y: "top".to_string(),
+           fa: "var".to_string(), fb: "var".to_string(), pre: "none".to_string(), v: String::new() }
 }
 
 struct Mutator<'a> {
@@ -463,6 +490,8 @@ struct Mutator<'a> {
     /// > 0 while inside the argument of a call: an edit that changes the type of the edited expression
     /// would there be masked by the (dominating) E512 of the call, so only type-preserving edits are made
     in_arg: usize,
+    /// may the wrong operand be something else than a variable?
+    forms: bool,
     done: Option<(&'static str, Cell)>,
 }
 
@@ -471,6 +500,26 @@ impl<'a> Mutator<'a> {
         let pool: Vec<&Var> = self.vars.iter().filter(|v| ty::is_prim(&v.ty) && &v.ty != not && v.name.starts_with("v_")).collect();
         let v = *self.rng.pick(&pool);
         Expr::Ref { k: 0, name: v.name.clone(), decl: v.ty.clone(), ty: v.ty.clone() }
+    }
+    /// An expression of another primitive type in one of several FORMS: a variable, the result of a call, a named
+    /// constant, a cast (integers).  Only where the type that is wanted is primitive: the rule names E513 for a
+    /// VARIABLE whose address would fit, which a call result / constant cannot be.
+    fn other_prim_expr(&mut self, not: &Ty) -> Expr {
+        let e = self.other_prim_var(not);
+        if !self.forms || !ty::is_prim(not) {
+            return e;
+        }
+        let t = e.ty();
+        let p = t[0].clone();
+        match self.rng.below(6) {
+            0 => Expr::Lit { ty: t, text: format!("mk_{p}()") },
+            1 => Expr::Lit { ty: t, text: format!("K_{p}") },
+            2 if is_int(&p) => {
+                let src = if p == "i64" { "i32" } else { "i64" };
+                Expr::Lit { ty: t, text: format!("(v_{src} as {p})") }
+            }
+            _ => e,
+        }
     }
     fn var_of(&mut self, p: &str) -> Expr {
         Expr::Ref { k: 0, name: format!("v_{p}"), decl: prim(p), ty: prim(p) }
@@ -506,7 +555,7 @@ impl<'a> Mutator<'a> {
                 let p = t[0].clone();
                 if self.hit() {
                     // operand type swap (bool/int confusion is the case where the other type is bool)
-                    let other = if self.rng.chance(30) && p != "bool" { self.var_of("bool") } else { self.other_prim_var(&t) };
+                    let other = if self.rng.chance(30) && p != "bool" { self.var_of("bool") } else { self.other_prim_expr(&t) };
                     let edit = if other.ty() == prim("bool") { "bool-int-confusion" } else { "operand-type-swap" };
                     if self.in_arg > 0 || self.rng.chance(50) {
                         **r = other;
@@ -555,7 +604,7 @@ impl<'a> Mutator<'a> {
             }
             Expr::Structural { e: inner, .. } => {
                 if self.hit() {
-                    **inner = self.other_prim_var(&prim("i32"));
+                    **inner = self.other_prim_expr(&prim("i32"));
                     self.done = Some(("wrong-member-type", cell("member", "", inner.operand(), (prim("i32"), 0))));
                     return;
                 }
@@ -591,7 +640,7 @@ impl<'a> Mutator<'a> {
                     _ => {
                         // wrong argument type
                         let not = if ty::is_prim(&pt) { pt.clone() } else { vec![] };
-                        args[i] = self.other_prim_var(&not);
+                        args[i] = self.other_prim_expr(&not);
                         self.done = Some(("wrong-argument-type", cell("arg", "", args[i].operand(), (pt, 0))));
                     }
                 }
@@ -623,7 +672,7 @@ impl<'a> Mutator<'a> {
         match s {
             Stmt::Var { ty, init, .. } => {
                 if !matches!(init, Expr::Structural { .. }) && self.hit() {
-                    *init = self.other_prim_var(ty);
+                    *init = self.other_prim_expr(ty);
                     self.done = Some(("wrong-initialiser-type", cell("init", "", init.operand(), (ty.clone(), 0))));
                     return;
                 }
@@ -635,7 +684,7 @@ impl<'a> Mutator<'a> {
                     let which = self.rng.below(3);
                     if which == 0 || *k > 0 {
                         *rhs = if *k == 0 {
-                            self.other_prim_var(&base)
+                            self.other_prim_expr(&base)
                         } else {
                             let o = self.other_prim_var(&base);
                             match o {
@@ -668,7 +717,7 @@ impl<'a> Mutator<'a> {
                 if self.hit() {
                     if self.rng.chance(70) {
                         let t = l.ty();
-                        *r = self.other_prim_var(&t);
+                        *r = self.other_prim_expr(&t);
                         self.done = Some(("compared-type-swap", cell("cmp", op, l.operand(), r.operand())));
                     } else {
                         // ordering of pointers
@@ -697,7 +746,7 @@ impl<'a> Mutator<'a> {
 /// Number of candidate sites of a program (by a dry run with an unreachable target).
 pub fn count_sites(p: &Program, vars: &[Var]) -> usize {
     let mut rng = Rng::new(1, 1);
-    let mut m = Mutator { rng: &mut rng, vars, funcs: &p.funcs, target: usize::MAX, seen: 0, in_arg: 0, done: None };
+    let mut m = Mutator { rng: &mut rng, vars, funcs: &p.funcs, target: usize::MAX, seen: 0, in_arg: 0, forms: false, done: None };
     let mut q = p.clone();
     for s in q.body.iter_mut() {
         m.stmt(s);
@@ -710,7 +759,7 @@ pub fn count_sites(p: &Program, vars: &[Var]) -> usize {
 pub fn mutate(p: &Program, vars: &[Var], target: usize, rng: &mut Rng) -> Option<Mutant> {
     let mut q = p.clone();
     let funcs = p.funcs.clone();
-    let mut m = Mutator { rng, vars, funcs: &funcs, target, seen: 0, in_arg: 0, done: None };
+    let mut m = Mutator { rng, vars, funcs: &funcs, target, seen: 0, in_arg: 0, forms: true, done: None };
     let mut at = 0;
     for (i, s) in q.body.iter_mut().enumerate() {
         m.stmt(s);
@@ -723,7 +772,7 @@ pub fn mutate(p: &Program, vars: &[Var], target: usize, rng: &mut Rng) -> Option
         at = q.body.len();
         if m.hit() {
             let rt = q.ret_ty.clone();
-            q.ret = m.other_prim_var(&rt);
+            q.ret = m.other_prim_expr(&rt);
             m.done = Some(("wrong-return-type", cell("ret", "", q.ret.operand(), (rt, 0))));
         } else {
             m.expr(&mut q.ret);
